@@ -77,9 +77,17 @@ fn auth_case_stacked(t: &[&str], outer: Option<&str>) -> String {
             // a trailing 'o' / 'i' / 'c': the request also carries the extensions the library itself attaches elsewhere
             // (Direction::Outbound, Direction::Inbound, a ConnectionOrigin): none of them is the sender's identity
             let (spec, extra) = match spec.chars().last() {
-                Some(c @ ('o' | 'i' | 'c')) if spec.len() > 1 || spec == "n" => (&spec[..spec.len() - 1], Some(c)),
+                Some(c @ ('o' | 'i' | 'c' | 'h')) if spec.len() > 1 || spec == "n" => (&spec[..spec.len() - 1], Some(c)),
                 _ => (spec, None),
             };
+            if extra == Some('h') {
+                // headers that name a listed identity (its PeerId in hex) under every candidate name (VERIF_ID_HEADERS)
+                let named = t[1].split(',').next().and_then(|x| x.parse::<u64>().ok()).unwrap_or(0);
+                let v = hex::encode(peer(named).0);
+                for n in std::env::var("VERIF_ID_HEADERS").unwrap_or_default().split(',').filter(|x| !x.is_empty()) {
+                    r.headers_mut().insert(String::from_utf8(unhex(n)).unwrap(), v.clone());
+                }
+            }
             let spec = if spec.is_empty() { "n" } else { spec };
             match extra {
                 Some('o') => r = r.with_extension(anemo::Direction::Outbound),
@@ -454,11 +462,17 @@ fn ratelayer_case(t: &[&str]) -> String {
     let svc = RateLimitLayer::new(quota, mode).layer(inner);
     let rt = tokio::runtime::Builder::new_multi_thread().worker_threads(2).enable_all().build().unwrap();
     // <p>@<ms>[@<k>]: with a third field the request carries the route "/r<k>" (the quota is per peer, whatever it asks for)
-    let evs: Vec<(u64, u64, Option<u64>)> = t[4..]
+    // a fourth field t<ms>: the request carries a `timeout` header of that many milliseconds
+    let evs: Vec<(u64, u64, Option<u64>, Option<u64>)> = t[4..]
         .iter()
         .map(|e| {
             let f: Vec<&str> = e.split('@').collect();
-            (f[0].parse().unwrap(), f[1].parse().unwrap(), f.get(2).map(|k| k.parse().unwrap()))
+            (
+                f[0].parse().unwrap(),
+                f[1].parse().unwrap(),
+                f.get(2).filter(|k| !k.is_empty() && **k != "-").map(|k| k.parse().unwrap()),
+                f.get(3).map(|k| k.trim_start_matches('t').parse().unwrap()),
+            )
         })
         .collect();
     let res = rt.block_on(async move {
@@ -468,7 +482,7 @@ fn ratelayer_case(t: &[&str]) -> String {
             evs.sort_by_key(|e| e.1);
         }
         let mut shared = svc.clone();
-        for (p, at, route) in evs {
+        for (p, at, route, tmo) in evs {
             let s = svc.clone();
             // in "+same" mode the call is made here, in time order, on the one shared value; only its future is spawned
             let pre = if same {
@@ -479,6 +493,9 @@ fn ratelayer_case(t: &[&str]) -> String {
                     .with_extension(peer(p));
                 if let Some(k) = route {
                     req = req.with_route(format!("/r{k}"));
+                }
+                if let Some(ms) = tmo {
+                    req = req.with_timeout(Duration::from_millis(ms));
                 }
                 let sent = start.elapsed().as_nanos();
                 let fut = tower::ServiceExt::ready(&mut shared).await.unwrap().call(req);
@@ -496,6 +513,9 @@ fn ratelayer_case(t: &[&str]) -> String {
                             .with_extension(peer(p));
                         if let Some(k) = route {
                             req = req.with_route(format!("/r{k}"));
+                        }
+                        if let Some(ms) = tmo {
+                            req = req.with_timeout(Duration::from_millis(ms));
                         }
                         let sent = start.elapsed().as_nanos();
                         (sent, s.oneshot(req).await)
